@@ -42,7 +42,8 @@ def check_trained(rd, tf, enc, cov, wit, dist):
         _c05.load_context_list()
         secs_all, infos_all = [], []
         for pw_ in valid:
-            _line, secs_, info_ = _cd.real_parse_line(pw_, pickle.loads(pristine) if pristine is not None else mw)
+            # (a detector that cannot be copied is trained again: same list, same order, the same tables)
+            _line, secs_, info_ = _cd.real_parse_line(pw_, pickle.loads(pristine) if pristine is not None else train_util.first_pass(valid)[0])
             secs_all.append(secs_)
             infos_all.append(info_)
         ind = _c05.tallies(secs_all, infos_all)
